@@ -26,8 +26,8 @@
 const char *verif_property = "C03";
 const char *verif_class_names[] = { "A_died_during_handshake", "A_died_connected_idle", "A_died_with_requests_queued", "A_died_mid_request", "A_died_in_disconnect", "A_completed", "A_partial_send", "A_killed_inside_server_callback", "A_closed_asked_for_rerun",
 	"B_died_before_ready", "B_died_during_handshake", "B_died_while_client_waited_forever", "B_died_while_client_waited_finite", "B_killed_between_calls", "B_survived", "B_later_call_checked",
-	"B_shm_cleanup_checked", "B_listener_set_up_by_living_parent", "shm", "socket", "A_died_with_requests_queued_under_flow_control", NULL };
-enum { KA_HANDSHAKE, KA_IDLE, KA_QUEUED, KA_MID, KA_DISC, KA_DONE, KA_PARTIAL, KA_INCB, KA_RETRY, KB_NOTREADY, KB_HANDSHAKE, KB_FOREVER, KB_FINITE, KB_KILLED, KB_SURVIVED, KB_LATER, KB_CLEAN, KB_SPLIT, K_SHM, K_SOCK, KA_FCDEATH };
+	"B_shm_cleanup_checked", "B_listener_set_up_by_living_parent", "shm", "socket", "A_died_with_requests_queued_under_flow_control", "A_connection_on_descriptor_0", NULL };
+enum { KA_HANDSHAKE, KA_IDLE, KA_QUEUED, KA_MID, KA_DISC, KA_DONE, KA_PARTIAL, KA_INCB, KA_RETRY, KB_NOTREADY, KB_HANDSHAKE, KB_FOREVER, KB_FINITE, KB_KILLED, KB_SURVIVED, KB_LATER, KB_CLEAN, KB_SPLIT, K_SHM, K_SOCK, KA_FCDEATH, KA_FD0 };
 const char *verif_rule =
 	"case = part (A client dies / B server dies), transport, script of the victim (A: answered requests, requests left queued, events, proper disconnect or not; B: which requests are answered), "
 	"crash point K = index of the libc call before which the victim stops (enumerated 0..N for fixed scripts, random otherwise) with optional partial send, server step choices (A) or client call "
@@ -145,7 +145,7 @@ static bool control_roundtrip(qb_ipcc_connection_t *ctl, const char *when)
 	return false;
 }
 
-static void part_a(struct verif_report *r, enum qb_ipc_type type, const ascript &sc, long K, int partial, bool lazy, int kill_in, int fc_at_death = 0)
+static void part_a(struct verif_report *r, enum qb_ipc_type type, const ascript &sc, long K, int partial, bool lazy, int kill_in, int fc_at_death = 0, bool fd0_free = false)
 {
 	a_victim = 0; a_kill_in = kill_in; a_dead = false;	/* a_closed_retries is set by the caller */
 	DISP.clear(); JOBS.clear(); AC.clear();
@@ -174,6 +174,11 @@ static void part_a(struct verif_report *r, enum qb_ipc_type type, const ascript 
 		victim_client(name.c_str(), sc, K, partial, pfd[1]);
 	}
 	close(pfd[1]);
+	if (fd0_free) {
+		/* a daemon that has closed its standard input: the next descriptor the server gets - the victim's connection - is number 0 */
+		__real_close(0); base_fds--;
+		VLOG(r, "the server's descriptor 0 is free when the client connects\n");
+	}
 	a_victim = pid;
 	fcntl(pfd[0], F_SETFL, O_NONBLOCK);
 	std::string rep; bool dead = false, seen_q = false, fc_applied = false; int status = 0; unsigned fair = 0; double t_dead = 0;
@@ -209,6 +214,7 @@ static void part_a(struct verif_report *r, enum qb_ipc_type type, const ascript 
 	bool completed = rep.find("N ") != std::string::npos;
 	size_t kp = rep.find("K ");
 	if (a_dead) { VCLASS(r, KA_INCB); r->nontrivial = 1; }
+	if (fd0_free && rep.find("C\n") != std::string::npos) VCLASS(r, KA_FD0);
 	if (fc_applied && lazy && sc.n_queued && rep.find("Q\n") != std::string::npos) VCLASS(r, KA_FCDEATH);
 	std::string where = a_dead ? std::string("killed inside the server's ") + (kill_in == 1 ? "accept" : kill_in == 2 ? "created" : "msg_process") + " callback" : completed ? "completed (" + rep.substr(rep.find("N "), rep.find('\n', rep.find("N ")) - rep.find("N ")) + " calls)" : kp != std::string::npos ? rep.substr(kp, rep.find('\n', kp) - kp) : "died (no report)";
 	VLOG(r, "victim: %s; phases seen: %s%s%s%s\n", where.c_str(), rep.find("C\n") != std::string::npos ? "connected " : "", rep.find("S\n") != std::string::npos ? "sync-done " : "",
@@ -442,13 +448,18 @@ static const uint8_t BSCRIPT[3][32] = {
 extern "C" size_t verif_enum_count(const char *tier)
 {
 	(void)tier;	/* both tiers enumerate every crash point: part A 2 transports x 4 scripts x K; part B 2 transports x 3 scripts x K */
-	return 2 * 4 * ENUM_KA + 2 * 3 * ENUM_KB + 2 * 3 * 2 + 2 * HS_REQ_PREFIXES + 2 * HS_RSP_PREFIXES + 2 * 3 + 2 * ENUM_KA;
+	return 2 * 4 * ENUM_KA + 2 * 3 * ENUM_KB + 2 * 3 * 2 + 2 * HS_REQ_PREFIXES + 2 * HS_RSP_PREFIXES + 2 * 3 + 2 * ENUM_KA + 2 * ENUM_KA;
 }
 extern "C" size_t verif_enum_case(size_t idx, uint8_t *buf, size_t cap)
 {
 	if (cap < 40) return 0;
 	memset(buf, 0, 40);
 	size_t base_n = 2 * 4 * ENUM_KA + 2 * 3 * ENUM_KB + 2 * 3 * 2 + 2 * HS_REQ_PREFIXES + 2 * HS_RSP_PREFIXES + 2 * 3;
+	if (idx >= base_n + 2 * ENUM_KA) {	/* the client with one answered and two queued requests dies at every K on a server whose descriptor 0 was free: its connection is descriptor 0 */
+		idx -= base_n + 2 * ENUM_KA;
+		buf[0] = 0xA0; buf[1] = idx / ENUM_KA; buf[2] = 2; uint16_t k = idx % ENUM_KA; memcpy(buf + 3, &k, 2); buf[7] = 3;
+		return 8;
+	}
 	if (idx >= base_n) {	/* the client with three requests left queued dies at every K while the application has request processing switched off when the server looks next */
 		idx -= base_n;
 		buf[0] = 0xA0; buf[1] = idx / ENUM_KA; buf[2] = 3; uint16_t k = idx % ENUM_KA; memcpy(buf + 3, &k, 2); buf[7] = 1 + (idx % 2);
@@ -494,7 +505,7 @@ extern "C" int verif_case(const uint8_t *data, size_t size, struct verif_report 
 	if (first == 0xA0 || first == 0xB0) {		/* enumerated */
 		enum qb_ipc_type type = vr_u8(&V) ? QB_IPC_SHM : QB_IPC_SOCKET;
 		unsigned siraw = vr_u8(&V), si = siraw % 4; long K = vr_u16(&V); bool split = first == 0xB0 && (siraw & 0x80); int kin = first == 0xA0 ? (int)(vr_u8(&V) % 4) : 0;
-		int partial = -1, fcd = first == 0xA0 && size >= 8 ? data[7] % 3 : 0;
+		int partial = -1, fcd = first == 0xA0 && size >= 8 ? data[7] % 3 : 0; bool fd0 = first == 0xA0 && size >= 8 && (data[7] / 3) % 2;
 		if (K == 0xfffe) {	/* stop after a prefix of the first message sent */
 			K = -2;
 			if (first == 0xA0) partial = (int)vr_u8(&V);
@@ -502,7 +513,7 @@ extern "C" int verif_case(const uint8_t *data, size_t size, struct verif_report 
 		}
 		VCLASS(r, type == QB_IPC_SHM ? K_SHM : K_SOCK);
 		vop(r, first, type, si); vop(r, K, 0, 0);
-		if (first == 0xA0) { VLOG(r, "part A (client dies), %s, fixed script %u, crash point %ld\n", type == QB_IPC_SHM ? "shm" : "socket", si, K); a_closed_retries = si == 2 ? 2 : si == 1 ? 1 : 0; part_a(r, type, FIXED[si], K, partial, si == 3, kin, fcd); }
+		if (first == 0xA0) { VLOG(r, "part A (client dies), %s, fixed script %u, crash point %ld\n", type == QB_IPC_SHM ? "shm" : "socket", si, K); a_closed_retries = si == 2 ? 2 : si == 1 ? 1 : 0; part_a(r, type, FIXED[si], K, partial, si == 3, kin, fcd, fd0); }
 		else { VLOG(r, "part B (server dies), %s, crash point %ld\n", type == QB_IPC_SHM ? "shm" : "socket", K); part_b(r, type, K, partial, split); }
 		return 0;
 	}
@@ -522,8 +533,9 @@ extern "C" int verif_case(const uint8_t *data, size_t size, struct verif_report 
 		     sc.n_queued, sc.proper_disconnect ? "disconnects" : "just exits", K, partial >= 0 ? " with a partial send" : "", lazy ? "; the server leaves queued requests alone until the client is dead" : "");
 		a_closed_retries = vr_u8(&V) % 3 == 0 ? 1 + (int)(vr_u8(&V) % 3) : 0;
 		int fcd = vr_u8(&V) % 3 == 0 ? 1 + (int)(vr_u8(&V) % 2) : 0;
-		vop(r, kin, a_closed_retries, fcd);
-		part_a(r, type, sc, K, partial, lazy, kin, fcd);
+		bool fd0 = (K + sc.n_sync + sc.n_queued) % 4 == 3;	/* derived, so that older case files decode as before */
+		vop(r, kin, a_closed_retries, fcd + 4 * fd0);
+		part_a(r, type, sc, K, partial, lazy, kin, fcd, fd0);
 	} else {
 		vop(r, 0xB, type, K); vop(r, partial, 0, 0);
 		VLOG(r, "part B (server dies), %s, crash point %ld%s\n", type == QB_IPC_SHM ? "shm" : "socket", K, partial >= 0 ? " with a partial send" : "");
